@@ -120,7 +120,7 @@ pub fn strat() -> impl Strategy<Value = Program> {
 pub fn run(ctx: &Ctx) {
     set_rule("C20", "programs of 1..30 operations over a table of key containers - PrivateKey from bytes, PrivateKey::generate, PayloadKey::new, clone of any live value, drop of any live value, move into a Box - closed by dropping the rest in a generated order. At every drop the storage owned at that moment is inspected: a separate heap block through the allocator (inside dealloc, before the block is returned), bytes stored inline by reading the slot back after drop_in_place; both for both types, so the verdict does not depend on where a type keeps its bytes. Non-trivial = a clone is dropped before or after its original; distinct by hash of the program");
     ctx.assume("only storage owned by the value at drop time is inspected; copies the compiler leaves behind when a value is moved are outside what a destructor controls");
-    ctx.pbt("clone_drop_programs", ctx.n(60_000, 2_000_000), strat, check);
+    ctx.pbt("clone_drop_programs", ctx.n(600_000, 6_000_000), strat, check);
     // fixed minimal programs: each constructor, dropped directly and via a clone
     let fixed = vec![
         Program { ops: vec![Op::NewPrivate(1)], final_order: vec![] }, Program { ops: vec![Op::Generate], final_order: vec![] }, Program { ops: vec![Op::NewPayload(1)], final_order: vec![] },
